@@ -8,7 +8,9 @@ import (
 	"context"
 	"encoding/binary"
 	"fmt"
+	"os"
 	"runtime"
+	"strings"
 	"testing"
 	"time"
 )
@@ -21,6 +23,13 @@ func init() {
 			t.Fatal(err)
 		}
 		defer tr.close()
+		only := os.Getenv("VF_ONLY")
+		run := func(label string, f func()) {
+			if only != "" && !strings.Contains(label, only) {
+				return
+			}
+			vfBubble(t, label, f)
+		}
 		k := 0
 		next := func() bool { k++; return k%nshards == shard }
 		for _, il := range []bool{false, true} {
@@ -28,7 +37,7 @@ func init() {
 				// 1. length grid, failing and succeeding writes interleaved
 				if next() {
 					label := fmt.Sprintf("api-lengths-il%v-u%v#%d", il, unord, k)
-					vfBubble(t, label, func() {
+					run(label, func() {
 						w := vfNewWorld(vfWorldOpt{Label: label, Trace: tr, A: vfEpCfg{InitTSN: 11, Tag: 0xA6, IL: il, MaxMsg: 5000}, B: vfEpCfg{InitTSN: 0xFFFFFFF0, Tag: 0xB6, IL: il, Server: true, MaxMsg: 5000}})
 						if !w.vfConnect() {
 							w.finish(true)
@@ -54,7 +63,7 @@ func init() {
 				// 2. short buffers
 				if next() {
 					label := fmt.Sprintf("api-shortbuf-il%v-u%v#%d", il, unord, k)
-					vfBubble(t, label, func() {
+					run(label, func() {
 						w := vfNewWorld(vfWorldOpt{Label: label, Trace: tr, A: vfEpCfg{InitTSN: 12, Tag: 0xA6, IL: il}, B: vfEpCfg{InitTSN: 99, Tag: 0xB6, IL: il, Server: true}})
 						if !w.vfConnect() {
 							w.finish(true)
@@ -95,7 +104,7 @@ func init() {
 			// 3. writes on an association that is not established (before the handshake, after shutdown/close)
 			if next() {
 				label := fmt.Sprintf("api-notestablished-il%v#%d", il, k)
-				vfBubble(t, label, func() {
+				run(label, func() {
 					w := vfNewWorld(vfWorldOpt{Label: label, Trace: tr, A: vfEpCfg{InitTSN: 13, Tag: 0xA6, IL: il}, B: vfEpCfg{InitTSN: 77, Tag: 0xB6, IL: il, Server: true}})
 					w.cfgEvent()
 					w.start(0)
@@ -131,7 +140,7 @@ func init() {
 				}
 				label := fmt.Sprintf("api-blockwrite-il%v-d%d#%d", il, deadline, k)
 				dl := deadline
-				vfBubble(t, label, func() {
+				run(label, func() {
 					w := vfNewWorld(vfWorldOpt{Label: label, Trace: tr, A: vfEpCfg{InitTSN: 14, Tag: 0xA6, IL: il, BlockWrite: true, Buf: 8192}, B: vfEpCfg{InitTSN: 55, Tag: 0xB6, IL: il, Server: true, Buf: 8192}})
 					if !w.vfConnect() {
 						w.finish(true)
@@ -181,7 +190,7 @@ func init() {
 			//      ctx.Err() == nil after the deadline object had been re-armed -- defect F20)
 			if next() {
 				label := fmt.Sprintf("api-rearm-il%v#%d", il, k)
-				vfBubble(t, label, func() {
+				run(label, func() {
 					w := vfNewWorld(vfWorldOpt{Label: label, Trace: tr, A: vfEpCfg{InitTSN: 14, Tag: 0xA6, IL: il, BlockWrite: true, Buf: 8192}, B: vfEpCfg{InitTSN: 55, Tag: 0xB6, IL: il, Server: true, Buf: 8192}})
 					if !w.vfConnect() {
 						w.finish(true)
@@ -231,7 +240,7 @@ func init() {
 			//     the SACKs that do not advance the cumulative ack point must not restart the timer (C19_T3Backoff)
 			if next() {
 				label := fmt.Sprintf("api-t3backoff-il%v#%d", il, k)
-				vfBubble(t, label, func() {
+				run(label, func() {
 					w := vfNewWorld(vfWorldOpt{Label: label, Trace: tr, A: vfEpCfg{InitTSN: 21, Tag: 0xA6, IL: il}, B: vfEpCfg{InitTSN: 77, Tag: 0xB6, IL: il, Server: true}})
 					if !w.vfConnect() {
 						w.finish(true)
@@ -289,7 +298,7 @@ func init() {
 			//     SACK handler run concurrently; they take the association lock and the timer mutex): no deadlock
 			if next() {
 				label := fmt.Sprintf("api-t3race-il%v#%d", il, k)
-				vfBubble(t, label, func() {
+				run(label, func() {
 					w := vfNewWorld(vfWorldOpt{Label: label, Trace: tr, A: vfEpCfg{InitTSN: 31, Tag: 0xA6, IL: il}, B: vfEpCfg{InitTSN: 88, Tag: 0xB6, IL: il, Server: true}})
 					if !w.vfConnect() {
 						w.finish(true)
@@ -331,7 +340,7 @@ func init() {
 			// 4b. on-demand heartbeat: answered by the peer, yields a round-trip sample (C19, C12)
 			if next() {
 				label := fmt.Sprintf("api-heartbeat-il%v#%d", il, k)
-				vfBubble(t, label, func() {
+				run(label, func() {
 					w := vfNewWorld(vfWorldOpt{Label: label, Trace: tr, A: vfEpCfg{InitTSN: 16, Tag: 0xA6, IL: il}, B: vfEpCfg{InitTSN: 44, Tag: 0xB6, IL: il, Server: true}})
 					if !w.vfConnect() {
 						w.finish(true)
@@ -358,7 +367,7 @@ func init() {
 			//     and still waits for its data to be acknowledged (SHUTDOWN-PENDING)
 			if next() {
 				label := fmt.Sprintf("api-heartbeat-shutpend-il%v#%d", il, k)
-				vfBubble(t, label, func() {
+				run(label, func() {
 					w := vfNewWorld(vfWorldOpt{Label: label, Trace: tr, A: vfEpCfg{InitTSN: 17, Tag: 0xA6, IL: il}, B: vfEpCfg{InitTSN: 45, Tag: 0xB6, IL: il, Server: true}})
 					if !w.vfConnect() {
 						w.finish(true)
@@ -392,7 +401,7 @@ func init() {
 			// 5. read deadlines swept across the arrival instant
 			if next() {
 				label := fmt.Sprintf("api-readdeadline-il%v#%d", il, k)
-				vfBubble(t, label, func() {
+				run(label, func() {
 					w := vfNewWorld(vfWorldOpt{Label: label, Trace: tr, A: vfEpCfg{InitTSN: 15, Tag: 0xA6, IL: il}, B: vfEpCfg{InitTSN: 33, Tag: 0xB6, IL: il, Server: true}})
 					if !w.vfConnect() {
 						w.finish(true)
